@@ -472,6 +472,7 @@ class HttpParser(abc.ABC, Generic[_MsgT]):
                                 max_line_size=self.max_line_size,
                                 max_field_size=self.max_field_size,
                                 max_trailers=max_trailers,
+                                payload_exception=self.payload_exception,
                                 limit=self._limit,
                             )
                             if not payload_parser.done:
@@ -499,6 +500,7 @@ class HttpParser(abc.ABC, Generic[_MsgT]):
                                 max_line_size=self.max_line_size,
                                 max_field_size=self.max_field_size,
                                 max_trailers=max_trailers,
+                                payload_exception=self.payload_exception,
                                 limit=self._limit,
                             )
                         elif not empty_body and length is None and self.read_until_eof:
@@ -522,6 +524,7 @@ class HttpParser(abc.ABC, Generic[_MsgT]):
                                 max_line_size=self.max_line_size,
                                 max_field_size=self.max_field_size,
                                 max_trailers=max_trailers,
+                                payload_exception=self.payload_exception,
                                 limit=self._limit,
                             )
                             if not payload_parser.done:
@@ -918,9 +921,11 @@ class HttpPayloadParser:
         max_field_size: int = 8190,
         max_trailers: int = 128,
         limit: int = DEFAULT_CHUNK_SIZE,
+        payload_exception: type[BaseException] | None = None,
     ) -> None:
         self._length = 0
         self._paused = False
+        self._payload_exception = payload_exception
         self._type = ParseState.PARSE_UNTIL_EOF
         self._chunk = ChunkState.PARSE_CHUNKED_SIZE
         self._chunk_size = 0
@@ -964,6 +969,15 @@ class HttpPayloadParser:
 
     def pause_reading(self) -> None:
         self._paused = True
+
+    def _fail_payload(self, exc: BaseException) -> None:
+        # A reader blocked on the payload is woken with what is set here: it
+        # has to be the exception type the owner of the parser asked for,
+        # not the raw parser error.
+        if self._payload_exception is not None:
+            set_exception(self.payload, self._payload_exception(str(exc)), exc)
+        else:
+            set_exception(self.payload, exc)
 
     def feed_eof(self) -> None:
         if self._type == ParseState.PARSE_UNTIL_EOF:
@@ -1074,7 +1088,7 @@ class HttpPayloadParser:
                                     if b"\n" in ext
                                     else f"Unexpected control byte in chunk-extension: {ext!r}"
                                 )
-                                set_exception(self.payload, exc)
+                                self._fail_payload(exc)
                                 raise exc
                         else:
                             size_b = chunk[:pos]
@@ -1088,7 +1102,7 @@ class HttpPayloadParser:
                                 # in the body of the 400 response.
                                 chunk[:pos].decode("ascii", "backslashreplace")
                             )
-                            set_exception(self.payload, exc)
+                            self._fail_payload(exc)
                             raise exc
                         size = int(bytes(size_b), 16)
 
@@ -1104,7 +1118,7 @@ class HttpPayloadParser:
                             exc = TransferEncodingError(
                                 "Bad chunk-size line ending, expected CRLF"
                             )
-                            set_exception(self.payload, exc)
+                            self._fail_payload(exc)
                             raise exc
                         self._chunk_tail = chunk
                         self._paused = False
@@ -1143,7 +1157,7 @@ class HttpPayloadParser:
                         exc = TransferEncodingError(
                             "Chunk size mismatch: expected CRLF after chunk data"
                         )
-                        set_exception(self.payload, exc)
+                        self._fail_payload(exc)
                         raise exc
                     else:
                         # Keep the CR skipped above: it is skipped again when
@@ -1159,7 +1173,7 @@ class HttpPayloadParser:
                             exc = TransferEncodingError(
                                 "Bad trailer line ending, expected CRLF"
                             )
-                            set_exception(self.payload, exc)
+                            self._fail_payload(exc)
                             raise exc
                         self._chunk_tail = chunk
                         self._paused = False
